@@ -32,7 +32,8 @@ BOUNDS_TEXT = ("sender, inductive steps: remote window any int >= 0, max packet 
                "and <= 2 buffered extended entries of any length <= pk*maxpacket (<= cap = 1 MiB), one operation "
                "(write / writeExtended of any length <= pk*maxpacket, addWindowBytes of any increment <= cap, "
                "loseConnection); sender histories of <= hist operations from a fresh channel followed by a final "
-               "window grant; receiver: window size/left, max packet any ints, two incoming packets of 0..d bytes")
+               "window grant; receiver: window size/left, max packet any ints, two incoming packets of 0..d bytes, "
+               "channel open or closing (loseConnection requested with outgoing data still buffered)")
 OUTSIDE = ["SSH packet encoding of outgoing data (struct.pack / NS): SSHConnection.sendData/sendExtendedData are "
            "replaced by a recording connection on the sender side",
            "more than pk packets per buffered item / write in one operation (lengths are otherwise unbounded "
@@ -522,7 +523,7 @@ class _RecvChannel(_chmod.SSHChannel):
 _PAYLOAD = b"abcdefgh"
 
 
-def recv(ws: int, wl: int, mp: int, d1: int, e1: bool, d2: int, e2: bool) -> bool:
+def recv(ws: int, wl: int, mp: int, d1: int, e1: bool, d2: int, e2: bool, closing: bool) -> bool:
     """
     pre: 1 <= ws <= 0xFFFFFFFF and 0 <= wl <= ws and 1 <= mp <= 0xFFFFFFFF
     pre: 0 <= d1 <= B['d'] and 0 <= d2 <= B['d']
@@ -533,7 +534,7 @@ def recv(ws: int, wl: int, mp: int, d1: int, e1: bool, d2: int, e2: bool) -> boo
         conn._log = _NoLog()
         tr = _Transport()
         conn.transport = tr
-        ch = _RecvChannel(localWindow=ws, localMaxPacket=mp, conn=conn)
+        ch = _RecvChannel(localWindow=ws, localMaxPacket=mp, remoteWindow=0, remoteMaxPacket=1, conn=conn)
         ch._log = _NoLog()
         ch.got = []
         ch.id = 0
@@ -541,6 +542,13 @@ def recv(ws: int, wl: int, mp: int, d1: int, e1: bool, d2: int, e2: bool) -> boo
         conn.channels[0] = ch
         conn.localToRemoteChannel[0] = 7
         conn.channelsToRemoteChannel[ch] = 7
+        if closing:
+            # loseConnection() requested while outgoing data is still buffered (remote window 0): the
+            # channel is closing but not closed, and must keep receiving and replenishing its window
+            ch.write(b"zz")
+            ch.loseConnection()
+            if not (ch.closing and not ch.localClosed and len(ch.buf) == 2 and tr.packets == []):
+                return False
         peer = wl                   # the window the peer believes it has
         for (d, e) in ((d1, e1), (d2, e2)):
             k = _concrete(d, B['d'])
@@ -592,7 +600,8 @@ HARNESSES = [
     H(history, shards=lambda tier: [("o0 == %d" % a, "o1 == %d" % b2) + (("o3 == 5", "n3 == 0") if BOUNDS[tier]["hist"] < 4 else ())
                                     for a in range(5) for b2 in range(5)],
       timeout={"quick": 60, "thorough": 900}),
-    H(recv, shards=[("e1 == False",), ("e1 == True",)], labels=("end", "refused"),
+    H(recv, shards=[("e1 == %s" % a, "closing == %s" % c) for a in (False, True) for c in (False, True)],
+      labels=("end", "refused"),
       timeout={"quick": 60, "thorough": 300}),
 ]
 
@@ -603,7 +612,8 @@ VECTORS = {
     "step_addwindow": [(0, 2, 0, 3, 1, 1, 10, 2, 2, 20, 0, True, 9), (0, 2, 0, 3, 1, 1, 10, 2, 2, 20, 0, False, 4)],
     "step_lose": [(4, 2, 0, 0, 0, 1, 0, 1, 2, 0, 0, False), (0, 2, 0, 2, 0, 1, 0, 1, 2, 0, 0, False)],
     "history": [(3, 2, 0, 2, 1, 2, 4, 0, 5, 0), (0, 1, 2, 1, 3, 1, 0, 1, 5, 0), (1, 3, 1, 3, 2, 2, 4, 0, 5, 0)],
-    "recv": [(10, 10, 4, 3, False, 3, True), (10, 2, 4, 3, False, 0, False), (1, 1, 1, 1, False, 0, False)],
+    "recv": [(10, 10, 4, 3, False, 3, True, False), (10, 2, 4, 3, False, 0, False, False),
+             (1, 1, 1, 1, False, 0, False, False), (10, 6, 4, 3, False, 3, True, True), (4, 1, 4, 3, True, 0, False, True)],
 }
 
 
